@@ -30,7 +30,8 @@ LEVEL_TEXT = ("Generated-input search over constructed stopping games rich in ze
               "self-loops, 0-3 sinks), both pruning modes, through solve() and through the batch runner. Termination "
               "is checked against a sweep bound derived from exact expected absorption times, so 'iterates forever' "
               "becomes a finite, deterministic observation. Exploration: liveness cannot be established by testing; "
-              "what is claimed is that no explored stopping game exceeded its derived bound or failed otherwise.")
+              "what is claimed is that no explored stopping game exceeded its derived bound or failed otherwise."
+              ' Added while validating sensitivity: medium-size games (20-300 states) with float-derived bounds, slowly escaping rewarded loops needing up to 1.9x10^5 sweeps (quick) / 4x10^5 (thorough), zero-probability transitions; slow games are explored up to T = 80000 / n.')
 LEVEL_NOTE = ("Trusted: harness/exact.py (T, values), the sweep bound of DESIGN 2.5, the run-time wrappers in "
               f"harness/budget.py. Only games with T <= {T_MAX} (input) and T_c <= 600 (conditioned) are explored; "
               "'no solution' is decided only when value(0) is 0 or above the numerical tolerance.")
